@@ -41,6 +41,12 @@ def build_model(rng, lane, idx, min_states=1, max_states=4, max_params=4, time_d
         with contextlib.redirect_stdout(io.StringIO()):
             c.m = G.build(c.spec, backend="lambda")
         c.classes = G.classes(c.spec)
+    # whole-number initial values held as Python ints / an integer-dtype array (counts of individuals), generated models only
+    c.x0_int = False
+    if lane != "catalogue" and int_times and rng.random() < 0.2:
+        c.x0 = [float(max(1, round(v))) for v in c.x0]
+        c.x0_int = True
+        c.classes = list(c.classes) + ["integer-x0"]
     c.ref = RefModel(c.spec)
     c.nS, c.nP = c.ref.nS, c.ref.nP
     c.states, c.params = c.spec["states"], c.spec["params"]
@@ -212,6 +218,8 @@ def make_loss(c, theta_init=None):
     # initial values as the caller holds them: a python list, or (x0_as_array) ONE float ndarray owned by the caller and handed to
     # every loss object built for this case
     x0_arg = c.x0_array if getattr(c, "x0_as_array", False) else list(c.x0)
+    if getattr(c, "x0_int", False):
+        x0_arg = np.array(c.x0, dtype=int) if getattr(c, "x0_as_array", False) else [int(v) for v in c.x0]
     with contextlib.redirect_stdout(io.StringIO()):
         return cls(np.array(free, dtype=float), c.m, x0_arg, c.t0, c.times, y, c.state_arg, **kw)
 
